@@ -66,6 +66,7 @@ type caseRun struct {
 	unsettled int
 	nontriv  bool
 	opsLog   []string
+	topo     bool
 	hadClient map[[2]int]bool
 	hadChan   map[int]bool
 }
